@@ -61,4 +61,9 @@ TEXT = {
   "note": "Twin is rebuilt by replaying the history in a fresh interpreter (does not rely on clone). Error texts are compared without source names.",
   "technique": "twin-execution monitor (history with vs without the rejected source) + invariant at the dump hook + REPL sessions over stdin",
  },
+ "C11": {
+  "level": "Exploration: programs with a meta block at every position are compared with the same program where the block is replaced by the literal value(s) its expression yields under ordinary evaluation; blocks that try to touch the surrounding stack or variables must be rejected; the dump hook shows that compile() runs nothing outside blocks and that a closed block leaves only its results (as code) and its constants behind.",
+  "note": "Metamorphic oracle: the value of e is taken from ordinary evaluation of the same expression in a scratch interpreter (trusts that ordinary evaluation of arithmetic/stack/collection words is right - C01/C09/C12 check that).",
+  "technique": "metamorphic twin-execution monitor (block vs inlined literal) + sealing probes + invariants at the dump hook",
+ },
 }
